@@ -1,4 +1,5 @@
 import SlipVerif.Model.LoadForm
+import SlipVerif.Model.SnapForms
 import SlipVerif.Driver.Util
 --! namespace: lf
 /- line protocol for C19:  lf <entry> <token>*
@@ -20,7 +21,14 @@ import SlipVerif.Driver.Util
      flavors (F <name> <k> <comp>*k <m> (<var> <term>)*m)*
                        -> ok (F <name> L <n> (<var> <term>)* E <n> (<var> <term>)* I <n> <inherited>*)*
                           L: instance variables of the flavor's load form, E: effective defaults,
-                          I: flattened inherit list; variables sorted by name -/
+                          I: flattened inherit list; variables sorted by name
+     snapload <form>*  -> ok t <name>* | ok nil <head>|<name>
+                          form = <head>|<name>|<need>,<need>…   need = <head>=<name>   head: the operator in the text
+                          (defmethod = a flavor method, define-condition = defclass, defparameter = defvar);
+                          the forms in the order of the snapshot TEXT: `loadOrder hoistedHeads` (the two passes of
+                          load), then `loadForms`: ok t + the names in evaluation order, or the first form with a
+                          need that is not yet defined
+     sections          -> ok <t|nil> <section>* / <hoisted>*   tablesOk and the model's tables -/
 namespace SlipVerif.Driver.LoadForm
 open SlipVerif.LoadForm SlipVerif.Driver
 
@@ -163,8 +171,31 @@ def sortVars (l : List (String × Obj)) : List (String × Obj) :=
 def showVars (l : List (String × Obj)) : String :=
   toString l.length ++ String.join ((sortVars l).map fun (v, d) => " " ++ v ++ " " ++ showTerm d)
 
+def parseNeed (tok : String) : Option (SnapForms.Head × String) :=
+  match tok.splitOn "=" with
+  | [h, n] => (SnapForms.Head.ofText? h).map fun hd => (hd, n)
+  | _ => none
+
+def parseSnapForm (tok : String) : Option SnapForms.Form :=
+  match tok.splitOn "|" with
+  | [h, n, needs] =>
+    match SnapForms.Head.ofText? h, ((needs.splitOn ",").filter (· ≠ "")).mapM parseNeed with
+    | some hd, some ns => some { head := hd, name := n, needs := ns }
+    | _, _ => none
+  | _ => none
+
 def handle (entry : String) (args : List String) : String :=
   match entry with
+  | "snapload" => match args.mapM parseSnapForm with
+    | some fs =>
+      let ev := SnapForms.loadOrder SnapForms.hoistedHeads fs
+      match SnapForms.loadForms ev [] with
+      | .ok _ => "ok t " ++ " ".intercalate (ev.map (·.name))
+      | .error f => "ok nil " ++ f.head.text ++ "|" ++ f.name
+    | none => "bad-request form"
+  | "sections" =>
+    "ok " ++ (if SnapForms.tablesOk SnapForms.sectionOrder SnapForms.hoistedHeads then "t" else "nil") ++ " " ++
+      " ".intercalate SnapForms.sectionOrder ++ " / " ++ " ".intercalate SnapForms.hoistedHeads
   | "form" => match parseAll args with
     | some x => "ok " ++ showTerm (loadForm x)
     | none => "bad-request term"
